@@ -1,22 +1,14 @@
-"""Per-property run plans for ./check. Counts and sizes bound every run (never a per-case clock);
-`timeout` is only the wall budget after which a worker is declared inconclusive (exit 2)."""
+"""Loads the per-property run plans (props/cNN/plan.json) for ./check and gen_manifest.py.
 
-def plan(quick_checks, thorough_checks, tests="^(TestProp|TestExhaustive)$", shards=16, qtimeout=900, ttimeout=5400, **kw):
-    d = {
-        "quick": {"checks": quick_checks, "shards": shards, "tests": tests, "timeout": qtimeout},
-        "thorough": {"checks": thorough_checks, "shards": shards, "tests": tests, "timeout": ttimeout},
-    }
-    d.update(kw)
-    return d
+plan.json keys: pkg, level, technique, quick{checks,shards,tests,timeout[,env,shard_env]},
+thorough{... [,fuzz{target,seconds}]}, optional race, race_is_violation, hang_is_violation,
+memlimit_mb, helpers{name: go package}, shrinktime, replay_timeout, and manifest{text,note,design_ref}.
+Counts and sizes bound every run (never a per-case clock); `timeout` is only the wall budget after
+which a worker is declared inconclusive (exit 2)."""
+import glob, json, os
 
-
-PROPS = {
-    "C06": dict(pkg="./props/c06", level="exploration", technique="property-based round trip (rapid) + exhaustive short strings",
-                **plan(2000, 20000)),
-}
-PROPS["C07"] = dict(pkg="./props/c07", level="exploration", technique="differential against an independent canonical LZHUF codec (rapid), both directions",
-                    **plan(1500, 20000, tests="^TestProp$"))
-PROPS["C08"] = dict(pkg="./props/c08", level="exploration", technique="mutation-based generation of hostile streams (rapid) with termination/bound/verdict oracle; native fuzz in thorough",
-                    hang_is_violation=True, memlimit_mb=4096,
-                    **plan(4000, 60000, tests="^TestProp$"))
-PROPS["C08"]["thorough"]["fuzz"] = {"target": "FuzzBytes", "seconds": 240}
+ROOT = os.path.dirname(os.path.abspath(__file__))
+PROPS = {}
+for f in sorted(glob.glob(os.path.join(ROOT, "props", "c[0-9][0-9]", "plan.json"))):
+    d = json.load(open(f))
+    PROPS[os.path.basename(os.path.dirname(f)).upper()] = d
